@@ -445,6 +445,8 @@ type TypeContract struct {
 	Key        string // pkgpath.Type
 	Monitors   []MonitorSpec
 	Invariants []*Clause
+	Stable     []string // fields never assigned outside the functions in StableSetIn
+	StableIn   []string // function names allowed to assign stable fields (constructors)
 }
 
 type MonitorSpec struct {
@@ -462,7 +464,10 @@ type ContractDB struct {
 }
 
 func NewContractDB() *ContractDB {
-	return &ContractDB{Funcs: map[string]*FuncContract{}, Types: map[string]*TypeContract{}, Ghosts: map[string]*GhostVar{}, SpecFn: map[string]*SpecFn{}, Consts: map[string]SExpr{}}
+	db := &ContractDB{Funcs: map[string]*FuncContract{}, Types: map[string]*TypeContract{}, Ghosts: map[string]*GhostVar{}, SpecFn: map[string]*SpecFn{}, Consts: map[string]SExpr{}}
+	// built-in ghost: set of closed channels (updated by the close builtin)
+	db.Ghosts["chanClosed"] = &GhostVar{Name: "chanClosed", Type: "map[int]bool"}
+	return db
 }
 
 const modPath = "github.com/rqlite/rqlite/v10"
@@ -708,6 +713,26 @@ func (db *ContractDB) ParseContracts(file string, lines []string, lineNos []int,
 				return err
 			}
 			curT.Invariants = append(curT.Invariants, c)
+		case "stable", "stable_set_in":
+			if err := finish(); err != nil {
+				return err
+			}
+			if curT == nil {
+				if curF != nil && word == "stable" {
+					// function-level: ignored (kept for documentation)
+					continue
+				}
+				return errf("%s outside type", word)
+			}
+			for _, a := range strings.Split(rest, ",") {
+				if a = strings.TrimSpace(a); a != "" {
+					if word == "stable" {
+						curT.Stable = append(curT.Stable, a)
+					} else {
+						curT.StableIn = append(curT.StableIn, a)
+					}
+				}
+			}
 		case "monitor":
 			if err := finish(); err != nil {
 				return err
